@@ -38,6 +38,10 @@ CHECKS = {
    text="Explicit-state BFS over histories of value operations carried on lock / re-lock / update / unlock / refused requests by several LockIds of one key; every transition executes the real engine; replies and the key's value are compared with a sequential interpreter written independently of ProcessLockData.",
    note="Trusted: instrumenter+runtime, RefValue (byte-level register semantics), RefLockDB for which requests take effect; cross-kind operations left open.",
    technique="explicit-state model checking by replay (canonical-state BFS) with a sequential reference interpreter as oracle"),
+ "C20": dict(level="model_checking", design="4/C20",
+   text="Explicit-state BFS over operation sequences on every internal queue type and constructor parameter set (from empty and from ramped states crossing the representation switches), each compared step by step with a plain slice deque / stable priority queue.",
+   note="Trusted: the in-package queue driver (harness file), the operation contracts listed in evidence; Shrink excluded (unused, no contract).",
+   technique="explicit-state model checking by replay of operation sequences with a reference deque as oracle"),
 }
 NA_DEFAULT = "check not built yet in this round (planned: see DESIGN.md section 4)"
 
